@@ -76,7 +76,14 @@ def build_harness():
     t0 = time.time()
     os.makedirs(os.path.join(HARNESS, "bin"), exist_ok=True)
     shutil.copyfile(os.path.join(REPO, "go.sum"), os.path.join(HARNESS, "go.sum"))
-    rc, out = sh(["go", "build", "-tags", "verif", "-o", "bin/", "./cmd/..."], cwd=HARNESS, env=GOENV, timeout=900)
+    cmd = ["go", "build", "-tags", "verif", "-o", "bin/", "./cmd/..."]
+    if REPO != "/repo":
+        # (development: background sweeps against a snapshot of the repository, VERIF_REPO=<path>)
+        alt = open(os.path.join(HARNESS, "go.mod")).read().replace("=> /repo", "=> " + REPO)
+        open(os.path.join(HARNESS, "go.alt.mod"), "w").write(alt)
+        shutil.copyfile(os.path.join(REPO, "go.sum"), os.path.join(HARNESS, "go.alt.sum"))
+        cmd = ["go", "build", "-modfile=go.alt.mod", "-tags", "verif", "-o", "bin/", "./cmd/..."]
+    rc, out = sh(cmd, cwd=HARNESS, env=GOENV, timeout=900)
     return {"ok": rc == 0, "log": out[-6000:], "wall_s": round(time.time() - t0, 2)}
 
 
